@@ -517,12 +517,17 @@ fn judge_wire(case: &br::Case, run: &br::Run, ctx: &mut CaseCtx) {
             if m >= horizon {
                 break;
             }
-            if !needed(m) {
+            // a host name search for the owner (open from the start to the end in these histories)
+            // needs the address at its 80 % mark; the later marks are demanded for the records of a
+            // browsed service only
+            let by_host_search = matches!(rec.rtype, T_A | T_AAAA) && case.resolve_hosts.iter().any(|h| br::host_name(*h).eq_ignore_case(&rec.name));
+            if !(needed(m) || (by_host_search && k == 0)) {
                 continue;
             }
-            // (a record whose 80 % mark fell into a time when no browsed service needed it - only a
-            // host name search, which asks once - is not demanded to be asked for again later)
-            if k > 0 && !needed(r_at + rec.ttl as u64 * 800) {
+            // (without a host name search, a record whose 80 % mark fell into a time when no browsed
+            // service needed it has no timer left for its later marks: it is asked for at the next
+            // wake-up instead, which this rule does not demand)
+            if k > 0 && !by_host_search && !needed(r_at + rec.ttl as u64 * 800) {
                 continue;
             }
             // the record must have been cached at all: for non-PTR records that is the case when the
